@@ -396,6 +396,10 @@ def run(F, rep, tier):
     rule_r5(F, rep)
     rule_r6(F, rep)
     rule_r7(F, rep)
+    # a file that imports itself under another spelling (`lib/../self.jsonnet`) is a self-dependent value only if both spellings
+    # reach the same thunk: the source cache must be keyed by the canonical path
+    from . import c13
+    c13.rule_r2(F, rep)
     rep.assume("tail calls marked `tailstrict` are deliberately not counted (tail-call elimination is the language's "
                "semantics); frames for nesting that goes through expression evaluation are decided only as far as R2/R5 "
                "reach; the exact off-by-one of the limit is not decided")
